@@ -209,3 +209,74 @@ class Coro:
 
     def __init__(self, value):
         self.value = value
+
+
+class SymMap:
+    """A (nested) dict with ARBITRARY initial content subject to an invariant: `initial(I, key_tuple)` yields the value
+    stored under a full key before the function ran (None = absent; it may fork). Reads are memoised per key (a second
+    read of the same key sees the same value), writes are recorded. Only the dict operations the code base uses exist:
+    setdefault(k, {}) on inner levels, get / setdefault / [] / []= on the last level."""
+
+    def __init__(self, depth, initial, prefix=(), root=None):
+        self.depth = depth
+        self.initial = initial
+        self.prefix = prefix
+        self.root = root or self
+        if root is None:
+            self.known = []  # [(key_tuple, value)] current content for keys touched so far
+            self.before = []  # [(key_tuple, value)] content at entry for keys touched so far
+            self.written = []  # key tuples written
+
+    def _lookup(self, I, key):
+        r = self.root
+        for i, (k, v) in enumerate(r.known):
+            if I.truthy(I.eq(k, key)):
+                return i
+        v = r.initial(I, key)
+        r.known.append((key, v))
+        r.before.append((key, v))
+        return len(r.known) - 1
+
+    def current(self, I, key):
+        return self.root.known[self._lookup(I, key)][1]
+
+    def pyvc_method(self, I, name, args, kw):
+        last = len(self.prefix) + 1 == self.depth
+        if name == "setdefault":
+            if not last:
+                d = args[1] if len(args) > 1 else None
+                from .interp import DictVal
+
+                if not (isinstance(d, DictVal) and not d.items):
+                    raise OutOfReach("setdefault on an inner level with a non-empty default")
+                return SymMap(self.depth, self.initial, self.prefix + (args[0],), self.root)
+            key = self.prefix + (args[0],)
+            i = self._lookup(I, key)
+            cur = self.root.known[i][1]
+            if cur is None:
+                self.root.known[i] = (key, args[1] if len(args) > 1 else None)
+                self.root.written.append(key)
+                return self.root.known[i][1]
+            return cur
+        if name == "get":
+            if not last:
+                raise OutOfReach("get on an inner level of a nested map")
+            cur = self.current(I, self.prefix + (args[0],))
+            return cur if cur is not None else (args[1] if len(args) > 1 else None)
+        raise OutOfReach(f"dict.{name} on a symbolic map")
+
+    def pyvc_setitem(self, I, key, v):
+        if len(self.prefix) + 1 != self.depth:
+            raise OutOfReach("item assignment on an inner level of a nested map")
+        k = self.prefix + (key,)
+        i = self._lookup(I, k)
+        self.root.known[i] = (k, v)
+        self.root.written.append(k)
+
+    def pyvc_getitem(self, I, key):
+        if len(self.prefix) + 1 != self.depth:
+            return SymMap(self.depth, self.initial, self.prefix + (key,), self.root)
+        cur = self.current(I, self.prefix + (key,))
+        if cur is None:
+            I.raise_("KeyError")
+        return cur
